@@ -125,11 +125,11 @@ def in_envelope(target: float, sb: dict[str, Any]) -> str | None:
 
 
 def fresh_target(live: list[dict[str, Any]], sb: dict[str, Any], ids: frozenset[int], ts: Any,
-                 order: list[int] | None = None) -> float | None:
+                 order: list[int] | None = None, *, max_age: float = MAX_AGE_S) -> float | None:
     """Target of a brand-new Matryoshka fed only the live proposals (history-free reference)."""
     from frequenz.sdk.microgrid._power_managing._matryoshka import Matryoshka
 
-    m = Matryoshka(max_proposal_age=timedelta(seconds=MAX_AGE_S))
+    m = Matryoshka(max_proposal_age=timedelta(seconds=max_age))
     sysb = mk_sysbounds(sb, ts)
     seq = live if order is None else [live[i] for i in order]
     for p in seq:
